@@ -321,6 +321,18 @@ def _admissible2(ctx, s2, dt, datas):
                 if len(gl) == 1 and e.conds == it.objs[g[1]].conds and e.value == ("cmp", "Is", ("elem", it.loops[gl[0]].iter, gl[0]), SNONE) \
                         and all(strip_seq(it, it.loops[gl[0]].iter) == strip_seq(it, d) for d in datas):
                     return (True, "CONST(object), nullable iff a None is among the stored values")
+                if len(gl) == 1 and e.value == ("cmp", "Is", ("elem", it.loops[gl[0]].iter, gl[0]), SNONE):
+                    # the flag counts the Nones of ANOTHER sequence: if the stored values can hold a None of their own (a None-keeping
+                    # element expression), the label is non-nullable over data with None
+                    may_none = False
+                    for d in datas:
+                        evs_ = element_values(it, d)
+                        if evs_ is None or any(v == SNONE or (v[0] == "ifexp" and SNONE in (v[2], v[3])) for v, _ in evs_):
+                            may_none = True
+                    if may_none:
+                        return (False, f"the nullable flag of the constant <{Kt}> label counts the Nones of `{sh(it.loops[gl[0]].iter, 40)}`, not of "
+                                       f"the stored values, which can hold a None of their own (one that comes from the other operand): a "
+                                       f"non-nullable label over data with None")
         # object kind with the SOURCE's nullability over the source's own elements (to_object)
         src = None
         okn = True
@@ -1211,27 +1223,53 @@ def _kinds() -> List[str]:
 
 
 def validation_loop(prog):
-    f = prog.func("vector.Vector.__setitem__")
-    loops = []
-    for st in walk_stmts(f.body):
-        if isinstance(st, ast.For) and any(isinstance(n, ast.Call) and short(n.func) == "validate_scalar" for n in walk_no_nested(st)):
-            loops.append(st)
-    if len(loops) != 1:
-        raise AnalysisError(f"Vector.__setitem__: expected one validation loop calling validate_scalar, found {len(loops)}")
-    loop = loops[0]
-    # the block that contains the loop
-    holder = None
-    for st in walk_stmts(f.body):
-        for blk in ("body", "orelse"):
-            lst = getattr(st, blk, None)
-            if isinstance(lst, list) and loop in lst:
-                holder = lst
-    if holder is None and loop in f.body:
-        holder = f.body
-    if holder is None:
-        raise AnalysisError("Vector.__setitem__: validation loop holder not found")
-    i = holder.index(loop)
-    return f, loop, holder[:i], holder[i + 1:]
+    """(function holding the loop, the loop, statements before it, statements after it IN Vector.__setitem__ that apply the target).
+    The loop may have moved into a private helper that __setitem__ calls (self._helper(...) returning the target): the statements
+    that apply the target are then those after the call in __setitem__."""
+    top = prog.func("vector.Vector.__setitem__")
+
+    def loops_of(g):
+        return [st for st in walk_stmts(g.body)
+                if isinstance(st, ast.For) and any(isinstance(n, ast.Call) and short(n.func) == "validate_scalar" for n in walk_no_nested(st))]
+
+    def holder_of(g, node):
+        if node in g.body:
+            return g.body
+        for st in walk_stmts(g.body):
+            for blk in ("body", "orelse"):
+                lst = getattr(st, blk, None)
+                if isinstance(lst, list) and node in lst:
+                    return lst
+        return None
+    loops = loops_of(top)
+    if len(loops) == 1:
+        loop = loops[0]
+        holder = holder_of(top, loop)
+        if holder is None:
+            raise AnalysisError("Vector.__setitem__: validation loop holder not found")
+        i = holder.index(loop)
+        return top, loop, holder[:i], holder[i + 1:]
+    if not loops:
+        # a helper called from __setitem__
+        found = []
+        for c in prog.calls_in(top):
+            name = c.func.attr if isinstance(c.func, ast.Attribute) else (c.func.id if isinstance(c.func, ast.Name) else None)
+            for q in (f"vector.Vector.{name}", f"vector.{name}"):
+                g = prog.functions.get(q)
+                if g is not None and g is not top and len(loops_of(g)) == 1 and (g, c) not in found:
+                    found.append((g, c))
+        if len({id(g) for g, _ in found}) == 1:
+            g, call = found[0]
+            loop = loops_of(g)[0]
+            holder = holder_of(g, loop)
+            # the statement of __setitem__ that receives the helper's result, and what follows it
+            stmt = next((st for st in walk_stmts(top.body) if any(n is call for n in ast.walk(st)) and isinstance(st, ast.Assign)), None)
+            th = holder_of(top, stmt) if stmt is not None else None
+            if holder is None or th is None:
+                raise AnalysisError("Vector.__setitem__: the validation helper's result is not bound by a plain assignment")
+            i, j = holder.index(loop), th.index(stmt)
+            return g, loop, holder[:i], th[j + 1:]
+    raise AnalysisError(f"Vector.__setitem__: expected one validation loop calling validate_scalar, found {len(loops)}")
 
 
 def _promote_hook(interp, recv, args, kw):
@@ -1267,13 +1305,41 @@ def _setitem(ctx, R_LOOP: str = "b.validation-loop", R_APPLIED: str = "b.target-
             d0 = DT(k0, n0)
             selfobj = Obj("Vector", {"_dtype": d0})
             env0 = {"self": selfobj, "__module__": "vector"}
-            # pre statements that are plain assignments (new_values = [...] is not evaluable: skip non-evaluable ones)
+            # pre statements that are plain assignments (new_values = [...] is not evaluable: skip non-evaluable ones); a conditional
+            # before the loop is executed too - a return there means that NO value is validated for this dtype
+            skipped = None
             for st in pre:
                 if isinstance(st, ast.Assign) and isinstance(st.targets[0], ast.Name):
                     try:
                         I.exec_stmt(st, env0, f)
                     except AnalysisError:
                         pass
+                elif isinstance(st, ast.If):
+                    try:
+                        I.exec_stmt(st, env0, f)
+                    except _Return as r_:
+                        skipped = r_.value
+                        break
+                    except (AnalysisError, Raised):
+                        pass
+            if skipped is not None:
+                for t in tags:
+                    n_cells += 1
+                    role = f"{d0!r}|{d0!r}|{t}"
+                    okc = isinstance(skipped, DT) and fits(t, skipped)
+                    if not okc:
+                        bad += 1
+                        if bad <= 8:
+                            ctx.ob(R_LOOP, f, role, False, "", loop,
+                                   message=f"vector {d0!r}: the validation is skipped altogether (a return before the loop hands back "
+                                           f"{skipped!r}), so a {t} value is accepted with a target dtype that does not admit it"
+                                           + (" - a None written into a non-nullable vector leaves it labelled non-nullable" if t == "NoneType" else ""))
+                    else:
+                        from .c04 import _OB
+                        o = _OB(R_LOOP, f.qualname, role, True, "skipped: the dtype admits the value")
+                        o.loc = "src/serif/vector.py"
+                        ctx.obligations.append(o)
+                continue
             loop_vars = sorted(k for k in env0 if k not in ("self", "__module__"))
             if not loop_vars:
                 raise AnalysisError("validation loop: no running target variable initialised before the loop")
